@@ -32,7 +32,9 @@ class Prop(common.PropertyCheck):
                    'm': [rng.uniform(0.85, 1.25) for _ in range(D)], 'b': [rng.uniform(0, 7) for _ in range(D)],
                    'rfi_ch': rng.choice(['all', 'subset', 'one']), 'mef_ch': rng.choice(['subset', 'one', 'all']),
                    'override': rng.random() < 0.3, 'sc_all': rng.random() < 0.5, 'seed': rng.randrange(1 << 30),
-                   'sc_kind': rng.choice(['lambda', 'lambda', 'fitted']), 'nozero': rng.random() < 0.3}
+                   'sc_kind': rng.choice(['lambda', 'lambda', 'fitted']), 'nozero': rng.random() < 0.3,
+                   # channels that hold no event at either limit (the others saturate at both ends)
+                   'nolimit': [c for c in range(D) if rng.random() < 0.35]}
         # more events than channel values, resolutions that are not powers of two (table-driven implementations)
         for _ in range(self.budget(12, 150)):
             yield {'D': 2, 'res': [rng.choice([1000, 777, 3000, 8000, 1023, 5000]), rng.choice([1000, 1023, 3000])],
@@ -51,6 +53,8 @@ class Prop(common.PropertyCheck):
             col = [0, 1, rr - 2, rr - 1, rr - 1, 0] + [r.randrange(0, rr) for _ in range((max(case['res']) + 300) if case.get('many') else 14)]
             if case.get('nozero'):
                 col = [v if v != 0 else 1 + r.randrange(0, 3) for v in col]
+            if c in (case.get('nolimit') or []) and rr > 8:
+                col = [min(max(v, 2), rr - 3) for v in col]
             ev.append(col)
         events = [list(row) for row in zip(*ev)]
         r.shuffle(events)
@@ -89,7 +93,7 @@ class Prop(common.PropertyCheck):
                 for lim0, lim1, nm in ((lo0, lo1, 'low'), (hi0, hi1, 'high')):
                     idx = np.nonzero(raw[:, c] == lim0)[0]
                     if len(idx) == 0:
-                        if not (case.get('nozero') and nm == 'low'):
+                        if not (case.get('nozero') and nm == 'low') and c not in (case.get('nolimit') or []):
                             out['problems'].append('harness: no event at the %s limit of channel %d' % (nm, c))
                         continue
                     v = new[idx[0], c]
